@@ -10,7 +10,8 @@ import _strptime
 import z3
 from smtk import regex2z3
 
-SRC = '/repo/param/parameters.py'
+import os
+SRC = os.path.join(os.environ.get('VERIF_REPO', '/repo'), 'param/parameters.py')
 DIRS = {'Y': ('y', 1, 9999, 4), 'm': ('m', 1, 12, 2), 'd': ('d', 1, 31, 2), 'H': ('H', 0, 23, 2), 'M': ('M', 0, 59, 2),
         'S': ('S', 0, 59, 2), 'f': ('f', 0, 999999, 6)}
 
